@@ -2,7 +2,6 @@ package checks
 
 import (
 	"bytes"
-	"encoding/binary"
 	"fmt"
 	"runtime"
 	"time"
@@ -53,6 +52,14 @@ func init() {
 	}
 	add("AddByte(0xA5)", 0, func(b *utils.BitList) { b.AddByte(0xA5) }, func(m []bool) []bool { return mAddBits(m, 0xA5, 8) })
 	add("AddByte(0)", 0, func(b *utils.BitList) { b.AddByte(0) }, func(m []bool) []bool { return mAddBits(m, 0, 8) })
+	// observers as operations: reading must not change what later reads return
+	same := func(m []bool) []bool { return m }
+	add("GetBytes()", 0, func(b *utils.BitList) { b.GetBytes() }, same)
+	add("IterateBytes()", 0, func(b *utils.BitList) {
+		for range b.IterateBytes() {
+		}
+	}, same)
+	add("GetBit(mid)+Len()", 1, func(b *utils.BitList) { b.GetBit(b.Len() / 2) }, same)
 	first := func(n int) int { return 0 }
 	mid := func(n int) int { return n / 2 }
 	last := func(n int) int { return n - 1 }
@@ -93,24 +100,8 @@ func blInit(kind, n, fillTo int) (*utils.BitList, []bool) {
 // blKey is the exact concrete state: count, capacity, the words that hold bits, and any
 // non-zero word beyond them.
 func blKey(bl *utils.BitList) string {
-	cnt, words := utils.VerifBitListState(bl)
-	used := (cnt + 31) / 32
-	var buf bytes.Buffer
-	var tmp [8]byte
-	binary.LittleEndian.PutUint32(tmp[:4], uint32(cnt))
-	binary.LittleEndian.PutUint32(tmp[4:], uint32(len(words)))
-	buf.Write(tmp[:])
-	for i, w := range words {
-		if i < used || w != 0 {
-			if i >= used {
-				binary.LittleEndian.PutUint32(tmp[:4], uint32(i))
-				buf.Write(tmp[:4])
-			}
-			binary.LittleEndian.PutUint32(tmp[:4], uint32(w))
-			buf.Write(tmp[:4])
-		}
-	}
-	return buf.String()
+	// every field of the struct, read through reflection: also fields added after this harness was written
+	return utils.VerifDeepKey(bl)
 }
 
 func blModelBytes(m []bool) []byte {
